@@ -940,6 +940,39 @@ def main(replay=None):
                      {"complaints": bad, "impl": obs, "text": ev["text"], "exit_code": rc})
     evaluations += n_api + n_cli
 
+    # ---- "error state raised by one statement does not surface at a later one", through _exception: an expression evaluated while text is
+    # preprocessed at run time fails (error + stack trace reported, the script goes on); later an error is caught by a handler. What the
+    # handler finds in _exception is what it finds when the earlier expression had succeeded (implementation only, two runs compared).
+    hops = V.build_harness("h_ops", "asan" if thorough else "plain")
+    progs = []
+    for _ in range(300 if thorough else 40):
+        fail = rng.choice(['[1,2] select 5', '1 + ""a""', 'call {[] select 3}', 'objNull setDamage ""x""', '[1] select 9; 4'])
+        fine = rng.choice(['1 + 1', '[1,2] select 1', 'call {3}'])
+        fine = fine + " " * (len(fail) - len(fine)) if len(fine) <= len(fail) else '1'.ljust(len(fail))     # same columns in both programs
+        pre = rng.choice(['private _t = preprocess__ "x = __EVAL(%s);";', 'private _t = preprocess__ "a __EVAL(%s) b __EVAL(1) c";',
+                          'private _t = preprocess__ "#define Q __EVAL(%s)\nQ Q";'])
+        gap = " ".join("g%d = %d;" % (i, rng.randint(0, 9)) for i in range(rng.randint(0, 4)))
+        err = rng.choice(['[1] select 7', '2 + "b"', 'call {[] select 4}', '[1,2,3] select -2'])
+        tail = 'captured = "none"; %s { %s } except__ { captured = str _exception }; captured' % (gap, err)
+        progs.append((pre % fail + " " + tail, pre % fine + " " + tail))
+    lines = []
+    for a_, b_ in progs:
+        lines += ["X\t-\t%s" % V.hx(a_), "X\t-\t%s" % V.hx(b_)]
+    rc_, out_, err_ = V.run_lines_parallel([hops], lines, timeout=3000)
+    for k, (a_, b_) in enumerate(progs):
+        oa, ob = out_[2 * k], out_[2 * k + 1]
+        fa, fb = oa.split(";"), ob.split(";")
+        evaluations += 1
+        dist["exception-after-failed-eval"] = dist.get("exception-after-failed-eval", 0) + 1
+        if len(fa) != 3 or len(fb) != 3 or fa[2] == "NONE" or fb[2] == "NONE":
+            run.violation("a script that preprocesses text with a failing __EVAL and later handles an error did not come back with a value: %s / %s"
+                          % (oa[:80], ob[:80]), {"with_failing_eval": a_, "with_succeeding_eval": b_, "impl": [oa[:400], ob[:400]]})
+        elif fa[2] != fb[2]:
+            run.violation("the handler's _exception holds messages of an EARLIER failure (an __EVAL evaluated while preprocessing at run time), not only "
+                          "those of the error it handles",
+                          {"with_failing_eval": a_, "with_succeeding_eval": b_, "exception_with": V.unhx(fa[2]).decode("latin-1")[:600],
+                           "exception_without": V.unhx(fb[2]).decode("latin-1")[:600]})
+
     for p in problems:
         run.violation("proof obligation not discharged: " + p, {"broken": p, "theorems": run.cov["theorems"]}, found_input=False)
     run.cov["evaluations"] = evaluations
